@@ -455,10 +455,10 @@ func realMain() {
 		// three comparisons over a reduced alphabet
 		var red []cmpLine
 		for _, k := range kinds {
-			for _, ci := range []int{1, 3, 4, 7} {
+			for _, ci := range []int{1, 3, 4, 5, 7, 9, 11, 13} {
 				red = append(red, cmpLine{k, ci, false})
 			}
-			red = append(red, cmpLine{k, 1, true})
+			red = append(red, cmpLine{k, 1, true}, cmpLine{k, 8, true})
 		}
 		for _, a := range red {
 			for _, b := range red {
